@@ -11,14 +11,18 @@
    risor on top of it (one [act] = one atomic step of one script goroutine):
      Send i    Chan.Send     select { ctx.Done | c.value <- v }          sender i's next value
      Recv j    Chan.Receive  select { ctx.Done | v, ok := <-c.value }    ok=false -> Nil
-     Next j    Chan.Next     as Receive, plus  c.lastReceived = v; c.rxCount++
+     Next j    Chan.Next     the select of Receive; ok=false -> (nil, false)      } the three statements
+     Store j   Chan.Next     c.lastReceived = value                              } of Chan.Next are
+     Count j   Chan.Next     c.rxCount++ ; return (value, true)                  } three steps
      Entry j   Chan.Entry    reads c.lastReceived and c.rxCount-1
      Close k   Chan.Close    close(c.value), "close of closed channel" panic -> error
      Cancel                  the context of the evaluation is cancelled
      SendCtx / RecvCtx / NextCtx   the ctx.Done() branch of the select (enabled once cancelled)
    The VM's ForIter opcode calls iter.Next(ctx), DISCARDS the value it returns, and then calls
    iter.Entry(): two steps that communicate through the fields lastReceived / rxCount of the
-   shared Chan object.  Receiver j is "pending" between its Next and its Entry.
+   shared Chan object.  Receiver j is "inside ForIter" ([iters]) from its Next to its Entry.
+   (rxCount++ and the reads of Entry are taken as atomic: a finer split only adds behaviours when
+   iterations overlap, which is the refuted class anyway.)
 
    Messages carry a ghost tag (the sender) next to the payload; [deq] is the ghost log of dequeue
    events in channel order, [seen] is what the scripts actually observed. *)
@@ -29,7 +33,9 @@ Notation val := N (only parsing).
 Notation msg := (nat * N)%type (only parsing).        (* (ghost sender id, payload) *)
 
 Inductive act :=
-| Send (i : nat) | Recv (j : nat) | Next (j : nat) | Entry (j : nat) | Close (k : nat)
+| Send (i : nat) | Recv (j : nat)
+| Next (j : nat) | Store (j : nat) | Count (j : nat) | Entry (j : nat)
+| Close (k : nat)
 | Cancel | SendCtx (i : nat) | RecvCtx (j : nat) | NextCtx (j : nat).
 
 (* what the step returned to the script that performed it *)
@@ -38,7 +44,9 @@ Inductive ev :=
 | EvSendClosed (i : nat)             (* "exec error: send on closed channel" *)
 | EvRecv (j : nat) (m : msg)         (* <-c  /  c.receive() returned the value *)
 | EvRecvNil (j : nat)                (* ... returned nil: channel closed and drained *)
-| EvNext (j : nat)                   (* Chan.Next returned (v, true); v is dropped by ForIter *)
+| EvNext (j : nat)                   (* Chan.Next: the channel handed over a value (still in a local variable) *)
+| EvStore (j : nat)                  (* Chan.Next: c.lastReceived = value *)
+| EvCount (j : nat)                  (* Chan.Next: c.rxCount++ ; returns (value, true), which ForIter drops *)
 | EvIterEnd (j : nat)                (* Chan.Next returned (nil, false): the range loop ends *)
 | EvEntry (j : nat) (key : nat) (m : msg)  (* loop variables of this iteration: key, value *)
 | EvClosed (k : nat)                 (* close(c) succeeded *)
@@ -46,31 +54,41 @@ Inductive ev :=
 | EvCancel
 | EvSendCtx (i : nat) | EvRecvCtx (j : nat) | EvIterCtx (j : nat).
 
+(* where a receiver is inside ForIter *)
+Inductive phase := Got | Stored | Counted.
+
 Record st := {
   buf : list msg;                    (* the Go channel's queue, head = oldest *)
   cap : nat;
   closed : bool;
   cancelled : bool;
-  todo : nat -> list val;            (* what sender i still has to send, in its program order *)
+  todo : nat -> list N;              (* what sender i still has to send, in its program order *)
   deq : list (nat * msg);            (* ghost: (receiver, message) in the order the channel released them *)
   seen : list ev;                    (* every event, in global order *)
   last : option msg;                 (* Chan.lastReceived *)
   rxcount : nat;                     (* Chan.rxCount *)
-  pending : list nat;                (* receivers between Next and Entry *)
+  iters : list (nat * (phase * msg)); (* receivers inside ForIter: phase and the value the channel gave them *)
 }.
 
 Definition upd {A} (f : nat -> A) (i : nat) (v : A) : nat -> A :=
   fun k => if Nat.eqb k i then v else f k.
 
-Definition mem (j : nat) (l : list nat) : bool := existsb (Nat.eqb j) l.
-Definition remove_id (j : nat) (l : list nat) : list nat := filter (fun k => negb (Nat.eqb k j)) l.
+Definition is_key {A} (j : nat) (p : nat * A) : bool := Nat.eqb (fst p) j.
+
+(* the iteration receiver j is in, if any *)
+Definition iter_of (j : nat) (l : list (nat * (phase * msg))) : option (phase * msg) :=
+  match find (is_key j) l with Some p => Some (snd p) | None => None end.
+Definition drop_iter (j : nat) (l : list (nat * (phase * msg))) : list (nat * (phase * msg)) :=
+  filter (fun p => negb (is_key j p)) l.
+Definition busy (j : nat) (s : st) : bool :=
+  match iter_of j (iters s) with Some _ => true | None => false end.
 
 Definition room (s : st) : bool := length (buf s) <? Nat.max (cap s) 1.
 
 (* the step only reports an event to the script *)
 Definition note (s : st) (e : ev) : st :=
   {| buf := buf s; cap := cap s; closed := closed s; cancelled := cancelled s; todo := todo s;
-     deq := deq s; seen := seen s ++ [e]; last := last s; rxcount := rxcount s; pending := pending s |}.
+     deq := deq s; seen := seen s ++ [e]; last := last s; rxcount := rxcount s; iters := iters s |}.
 
 Definition step (s : st) (a : act) : option (st * ev) :=
   match a with
@@ -84,49 +102,69 @@ Definition step (s : st) (a : act) : option (st * ev) :=
             Some ({| buf := buf s ++ [(i, v)]; cap := cap s; closed := closed s; cancelled := cancelled s;
                      todo := upd (todo s) i r;
                      deq := deq s; seen := seen s ++ [e]; last := last s; rxcount := rxcount s;
-                     pending := pending s |}, e)
+                     iters := iters s |}, e)
           else None                                           (* blocked: queue full *)
       end
   | Recv j =>
-      if mem j (pending s) then None else                     (* j is inside ForIter *)
+      if busy j s then None else                              (* j is inside ForIter *)
       match buf s with
       | m :: r =>
           let e := EvRecv j m in
           Some ({| buf := r; cap := cap s; closed := closed s; cancelled := cancelled s; todo := todo s;
                    deq := deq s ++ [(j, m)]; seen := seen s ++ [e]; last := last s; rxcount := rxcount s;
-                   pending := pending s |}, e)
+                   iters := iters s |}, e)
       | [] => if closed s then Some (note s (EvRecvNil j), EvRecvNil j)
               else None                                       (* blocked: queue empty *)
       end
   | Next j =>
-      if mem j (pending s) then None else
+      if busy j s then None else
       match buf s with
       | m :: r =>
           let e := EvNext j in
           Some ({| buf := r; cap := cap s; closed := closed s; cancelled := cancelled s; todo := todo s;
-                   deq := deq s ++ [(j, m)]; seen := seen s ++ [e]; last := Some m; rxcount := S (rxcount s);
-                   pending := j :: pending s |}, e)
+                   deq := deq s ++ [(j, m)]; seen := seen s ++ [e]; last := last s; rxcount := rxcount s;
+                   iters := (j, (Got, m)) :: iters s |}, e)
       | [] => if closed s then Some (note s (EvIterEnd j), EvIterEnd j) else None
       end
+  | Store j =>
+      match iter_of j (iters s) with
+      | Some (Got, m) =>
+          let e := EvStore j in
+          Some ({| buf := buf s; cap := cap s; closed := closed s; cancelled := cancelled s; todo := todo s;
+                   deq := deq s; seen := seen s ++ [e]; last := Some m; rxcount := rxcount s;
+                   iters := (j, (Stored, m)) :: drop_iter j (iters s) |}, e)
+      | _ => None
+      end
+  | Count j =>
+      match iter_of j (iters s) with
+      | Some (Stored, m) =>
+          let e := EvCount j in
+          Some ({| buf := buf s; cap := cap s; closed := closed s; cancelled := cancelled s; todo := todo s;
+                   deq := deq s; seen := seen s ++ [e]; last := last s; rxcount := S (rxcount s);
+                   iters := (j, (Counted, m)) :: drop_iter j (iters s) |}, e)
+      | _ => None
+      end
   | Entry j =>
-      if mem j (pending s) then
-        match last s with
-        | Some m =>
-            let e := EvEntry j (rxcount s - 1) m in
-            Some ({| buf := buf s; cap := cap s; closed := closed s; cancelled := cancelled s; todo := todo s;
-                     deq := deq s; seen := seen s ++ [e]; last := last s; rxcount := rxcount s;
-                     pending := remove_id j (pending s) |}, e)
-        | None => None
-        end
-      else None
+      match iter_of j (iters s) with
+      | Some (Counted, _) =>
+          match last s with
+          | Some m =>
+              let e := EvEntry j (rxcount s - 1) m in
+              Some ({| buf := buf s; cap := cap s; closed := closed s; cancelled := cancelled s; todo := todo s;
+                       deq := deq s; seen := seen s ++ [e]; last := last s; rxcount := rxcount s;
+                       iters := drop_iter j (iters s) |}, e)
+          | None => None
+          end
+      | _ => None
+      end
   | Close k =>
       let e := if closed s then EvCloseErr k else EvClosed k in
       Some ({| buf := buf s; cap := cap s; closed := true; cancelled := cancelled s; todo := todo s;
-               deq := deq s; seen := seen s ++ [e]; last := last s; rxcount := rxcount s; pending := pending s |}, e)
+               deq := deq s; seen := seen s ++ [e]; last := last s; rxcount := rxcount s; iters := iters s |}, e)
   | Cancel =>
       Some ({| buf := buf s; cap := cap s; closed := closed s; cancelled := true; todo := todo s;
                deq := deq s; seen := seen s ++ [EvCancel]; last := last s; rxcount := rxcount s;
-               pending := pending s |}, EvCancel)
+               iters := iters s |}, EvCancel)
   | SendCtx i =>
       if cancelled s then
         match todo s i with
@@ -135,9 +173,9 @@ Definition step (s : st) (a : act) : option (st * ev) :=
         end
       else None
   | RecvCtx j =>
-      if cancelled s && negb (mem j (pending s)) then Some (note s (EvRecvCtx j), EvRecvCtx j) else None
+      if cancelled s && negb (busy j s) then Some (note s (EvRecvCtx j), EvRecvCtx j) else None
   | NextCtx j =>
-      if cancelled s && negb (mem j (pending s)) then Some (note s (EvIterCtx j), EvIterCtx j) else None
+      if cancelled s && negb (busy j s) then Some (note s (EvIterCtx j), EvIterCtx j) else None
   end.
 
 Fixpoint run (s : st) (sch : list act) : option st :=
@@ -146,9 +184,9 @@ Fixpoint run (s : st) (sch : list act) : option st :=
   | a :: r => match step s a with Some (s', _) => run s' r | None => None end
   end.
 
-Definition init (c : nat) (prog : nat -> list val) : st :=
+Definition init (c : nat) (prog : nat -> list N) : st :=
   {| buf := []; cap := c; closed := false; cancelled := false; todo := prog; deq := []; seen := [];
-     last := None; rxcount := 0; pending := [] |}.
+     last := None; rxcount := 0; iters := [] |}.
 
 (* ---- projections used by the statements ---- *)
 
@@ -178,11 +216,11 @@ Fixpoint entry_keys (l : list ev) : list nat :=
   | _ :: r => entry_keys r
   end.
 
-(* what receiver j is holding between Next and Entry (the value Next returned to it) *)
+(* the value Chan.Next returned to receiver j (and ForIter dropped), while j is inside ForIter *)
 Definition held (s : st) (j : nat) : list msg :=
-  if mem j (pending s) then match last s with Some m => [m] | None => [] end else [].
+  match iter_of j (iters s) with Some (_, m) => [m] | None => [] end.
 
-(* ---- the guard: no Chan.Next while another receiver is between its Next and its Entry ---- *)
+(* ---- the guard: no receiver enters Chan.Next while another one is inside ForIter ---- *)
 
 Definition is_nil {A} (l : list A) : bool := match l with [] => true | _ => false end.
 
@@ -191,14 +229,16 @@ Fixpoint exclusive (s : st) (sch : list act) : bool :=
   | [] => true
   | a :: r =>
       match step s a with
-      | Some (s', _) => (match a with Next _ => is_nil (pending s) | _ => true end) && exclusive s' r
+      | Some (s', _) => (match a with Next _ => is_nil (iters s) | _ => true end) && exclusive s' r
       | None => true
       end
   end.
 
 (* the syntactic class the guard is derived from: at most one receiver (j0) iterates *)
 Definition single_iter (j0 : nat) (sch : list act) : bool :=
-  forallb (fun a => match a with Next j | Entry j | NextCtx j => Nat.eqb j j0 | _ => true end) sch.
+  forallb (fun a => match a with Next j | Store j | Count j | Entry j | NextCtx j => Nat.eqb j j0 | _ => true end) sch.
+
+Definition mem (j : nat) (l : list nat) : bool := existsb (Nat.eqb j) l.
 
 (* ids of the receivers that iterate in a schedule; class of the known finding: more than one *)
 Fixpoint iter_ids (sch : list act) : list nat :=
